@@ -456,7 +456,9 @@ def regen_table(ctx):
         nx = vtable.noexcept_checked_paths(ctx.repo); sites = vtable.stale_check_sites(ctx.repo)
         ctx.coverage['noexcept_checked_paths'] = {'offenders': nx[0], 'client_operators_scanned': nx[1]}
         ctx.coverage['stale_check_sites'] = sites
-        txt = vtable.to_coq(rows, lk, nx, sites)
+        pfx = vtable.guard_prefix_facts(ctx.repo, GEN)
+        ctx.coverage['guard_prefix_facts'] = pfx
+        txt = vtable.to_coq(rows, lk, nx, sites, pfx)
         old = open(out).read() if os.path.exists(out) else None
         if old != txt:
             open(out, 'w').write(txt)
